@@ -116,6 +116,29 @@ def main(argv=None):
     with ctx.Pool(min(a.jobs, max(1, len(tasks))), maxtasksperchild=1) as pool:
         results = pool.map(_task, tasks, chunksize=1)
 
+    # A failed frame obligation means the per-call pre-states no longer cover what the API can produce.  Search
+    # the pre-states reachable through one earlier call of the same function for a failing input (pyvc/history.py).
+    from pyvc import history as HI
+    hist_tasks = []
+    seen_h = set()
+    for r in results:
+        if any(ob["name"] == "frame.assigns" and ob["verdict"] == "refuted" for ob in r["obligations"]) \
+                and ct.REGISTRY[r["function"]].layer == "gadget" and "_history" not in r["cfg_raw"]:
+            for kind in HI.KINDS:
+                key = (r["function"], repr(sorted(verify._cfg_repr(r["cfg_raw"]).items())), kind)
+                if key not in seen_h:
+                    seen_h.add(key)
+                    fac = next(f for K, f in sel if K.name == r["function"])
+                    hist_tasks.append((r["function"], dict(r["cfg_raw"], _history=kind), fac, tier))
+    if hist_tasks:
+        with ctx.Pool(min(a.jobs, len(hist_tasks)), maxtasksperchild=1) as pool:
+            hres = pool.map(_task, hist_tasks, chunksize=1)
+        for r in hres:
+            # canaries and coverage were settled by the plain configurations
+            r["obligations"] = [ob for ob in r["obligations"] if not ob.get("canary") and not ob["name"].startswith(("cover.", "canary"))]
+            r["engine_errors"] = []
+        results = list(results) + [r for r in hres if not r.get("history_na")]
+
     findings = load_findings()
     broken = []
     obligations = []        # (function, cfg, ob)
